@@ -41,7 +41,8 @@ CLAIMED["C03"] = dict(
     text="Proof (Lean 4), for every machine set, fractions, oracle, every prior history with arbitrary (also backwards) clock values and every single-event call: "
          "a returned BlockOutgoing for machine m implies replace-while-active, or blocked time (recomputed from the BlockingBegin/End reports and timestamps alone, "
          "ongoing block counted to now, negative spans as 0) below allowed_blocked_microsec, or the blocked share below both the machine's and the framework's fraction. "
-         "Rests on the proved accounting refinement. The same decidable predicate runs as a monitor on the implementation's traces under a virtual clock.",
+         "Rests on the proved accounting refinement. The share is the double the code computes; C03_share_exact / C03_share_band relate it to the exact rational share (below in doubles implies exact share < limit (1 + 2^-49); the two tests agree outside the band limit (1 +- 2^-50)) for durations below 2^53 s. "
+         "The same decidable predicate runs as a monitor on the implementation's traces under a virtual clock.",
     ref="5 (C03)",
     technique="Lean 4: gate invariant over primitive steps + accounting refinement theorem; differential correspondence under a virtual clock; spec monitor on implementation traces",
 )
@@ -81,14 +82,18 @@ CLAIMED["C07"] = dict(
     text="Proof (Lean 4) of the limit logic of the model for all machines/oracles: no action of a limitable kind passes the limit predicates unless the state limit is > 0 (every path, incl. the zero-packet and replace paths), "
          "every such action ever put in a slot was gated at a positive limit, the limit is resampled exactly on a change of state index, a completion decrements by one and at 0 with a limited action withdraws the pending action and "
          "delivers LimitReached at once, other machines never touch the limit; and over whole calls and histories (C07_exhausted, C07_exhausted_history; any machines, any oracle): once the limit is 0 every later call returns at most a Cancel for the machine and leaves the limit at 0 "
-         "until a resampling is logged, which happens only on a change of state index. The exact count (L completions consume the limit) over whole histories is checked by the monitor on the implementation's log (limit assignments are hooked) and by the correspondence, not by a theorem.",
+         "until a resampling is logged, which happens only on a change of state index. The exact count is a theorem too (C07_completion_step, C07_countdown, C07_countdown_fire and the TimerBegin/BlockingBegin analogues): in a state without a transition on the completion event, "
+         "k < L completions of the machine leave the state and set the limit to L - k with nothing in the slot and no LimitReached, and the L-th completion of a limited action logs the decrement to 0 and delivers LimitReached to the machine in that very call (L = 0 included); "
+         "completions for other machines or unknown ids never change the machine's limit or state (C07_other_machine_completion), and over any history the number of decrements of a machine's limit is at most the number of its completions (C07_decrements_le_completions). "
+         "The monitor on the implementation's hooked limit log and the correspondence tie the code to this.",
     ref="5 (C07)",
     technique="Lean 4 theorems on the limit predicates and the decrement/enter functions of the model + hooked limit log: spec monitor and differential correspondence on the implementation",
 )
 CLAIMED["C08"] = dict(
     text="Proof (Lean 4) of the counter logic of the model: updates saturate within u64, the operand is 1 / the saturating cast of the sample / the other counter's pre-transition value, an update reports zero exactly on non-zero -> zero with the "
          "machine's own guard flag unset (flags per machine, cleared every call), CounterZero is delivered to the same machine at once iff an update reported zero and its action takes precedence. "
-         "Over a whole call a machine is delivered CounterZero at most twice, once per counter (C08_at_most_twice_per_call, potential argument on the ghost log). "
+         "Over a whole call a machine is delivered CounterZero at most twice, once per counter (C08_at_most_twice_per_call, potential argument on the ghost log), and the model's log of every call satisfies the monitor's own rules (C08_log_adjacent: checkLog and strayCZ accept it; C08_log_exact: "
+         "a counter update is followed at once by the CounterZero delivery exactly when it takes a counter of that machine from non-zero to zero for the first time in the call; C08_log_cz_preceded; counters of every reachable state are u64: C08_counters_u64_run). "
          "Whole-history behaviour is tied to the code by the correspondence on counter values and the hooked counter log, and by the monitor from the property text.",
     ref="5 (C08)",
     technique="Lean 4 theorems on the counter update functions of the model + hooked counter log: spec monitor and differential correspondence on the implementation",
@@ -96,9 +101,11 @@ CLAIMED["C08"] = dict(
 CLAIMED["C09"] = dict(
     text="Proof (Lean 4): the pending-signal slot after any sequence of signalling transitions excludes x exactly when all came from x (however many) and is All once two distinct machines signalled; the delivery round visits every machine "
          "except a lone signaller exactly once in index order and the lone signaller once afterwards iff the round raised a new signal; counted on the model's ghost copy of the hook log, no machine receives more than one Signal per call "
-         "and processing reported events delivers none. The implementation is tied to this by the correspondence of the internal log and by the monitor from the property text.",
+         "and processing reported events delivers none. Exactness over a whole call (C09_call_delivers, C09_call_delivers_log, C09_call_deliveries; any machines, oracle, batch): with the signalling transitions read off the ghost log, "
+         "no signaller: nobody receives a Signal; two distinct signallers: every machine exactly one; a lone signaller x: every other machine exactly one and x one iff the round's deliveries were answered by a signal, else none - also in the monitor's own "
+         "vocabulary (deliveries to machines that have not ended). The implementation is tied to this by the correspondence of the internal log and by the monitor from the property text.",
     ref="5 (C09)",
-    technique="Lean 4 theorems on the signal slot algebra and the unfolding of the delivery round + spec monitor on the implementation's internal log + differential correspondence",
+    technique="Lean 4 theorems on the signal slot algebra, the unfolding of the delivery round and exact counting of deliveries on the ghost log over whole calls + spec monitor on the implementation's internal log + differential correspondence",
 )
 CLAIMED["C10"] = dict(
     text="Proof (Lean 4), full statement by simulation: for ANY two machine sets holding the same machine m at positions i and k (the solo run is the special case [m], 0), any history and the same history with ids renamed (i to k, neighbours to other or unknown ids), "
